@@ -46,6 +46,11 @@ theorem C08_zip_aligned (D : Derive) (h : D.WF) :
 theorem C08_len (D : Derive) : (spec.names D.sem).length = D.numValues ∧ (spec.names D.sem).length = (spec.iter D.sem).length := by
   simp [spec.names, spec.iter, EnumSem.names, EnumSem.discs, Derive.sem, Derive.numValues]
 
+/-- the alignment survives reversal: `iter().rev().zip(names().rev())` pairs the same variants and names, descending -/
+theorem C08_rev_aligned (D : Derive) :
+    (spec.iter D.sem).reverse.zip (spec.names D.sem).reverse = D.sem.items.reverse := by
+  simp [spec.iter, spec.names, EnumSem.discs, EnumSem.names, ← List.map_reverse, List.zip_map']
+
 /-- non-vacuity: names of a renamed enum, consumed from both ends -/
 example : IterState.run (fun _ => .ok none) (fun _ => .ok none) (namesInit exD1) [.nextBack, .next, .len]
     = .ok (.cursor [[98, 98], [67], [68], [69]], [.item (some [70]), .item (some [65]), .len 4]) := by decide
